@@ -63,8 +63,8 @@ def plan(tier, ctx):
             qs.append(q("dist_table/longer_%d_%d" % (lo, hi), ["H_DIST", "DIST_LO=%d" % lo, "DIST_HI=%d" % hi],
                         defines=["LONGER_HUFFTABLE"], unwind=40,
                         unwindset=["create_packed_dist_table.0:8200", "create_packed_dist_table.1:40"], weight=50))
-    # ---- (a, reduced) heapify/build_heap on plain uint64_t arrays (n=5 8 s, n=8 > 150 s) ----------
-    for hn in ([2, 4, 6] if quick else list(range(2, 9))):
+    # ---- (a, reduced) heapify/build_heap on plain uint64_t arrays (n=5 8 s, n=6 > 150 s) ----------
+    for hn in ([2, 4, 5] if quick else list(range(2, 8))):
         qs.append(q("build_heap/n%d" % hn, ["H_HEAP", "HN=%d" % hn], unwind=hn + 2, core=(hn == 4), witness=(hn == 4),
                     weight=2 ** hn / 4.0))
     # ---- (d) are_hufftables_useable ------------------------------------------------------------
@@ -91,7 +91,7 @@ def plan(tier, ctx):
                              "match length 3..258 and distance 1..32768; default layout (2-entry dist table) quick, "
                              "LONGER_HUFFTABLE (8192 entries, dcodes offset 26) thorough",
             "are_hufftables_useable": "all 286+30 code lengths arbitrary 0..15",
-            "build_heap": "n = 2,4,6 (thorough 2..8) arbitrary 64-bit keys",
+            "build_heap": "n = 2,4,5 (thorough 2..7; n >= 6 may stay undecided) arbitrary 64-bit keys",
             "set_hufftables": "state over the whole enum, every scalar stream field arbitrary, type any int, table NULL or not",
         },
         stubs=["include guards _X86INTRIN_H_INCLUDED/_IMMINTRIN_H_INCLUDED predefined (build speed only; no intrinsic is "
